@@ -24,6 +24,7 @@ def run_property(prop, tier="quick", repo="/repo", evidence_dir=None, quiet=Fals
         from .model import Program
 
         prog = Program(repo)
+        rep.prog = prog
         if prog.normalised or prog.inlined:
             rep.extra["normalisations"] = list(prog.normalised) + [f"inlined {h} into {c}" for c, h in prog.inlined]
         mod.check(prog, rep)
